@@ -19,6 +19,11 @@ Definition ext_sizes : list (Z * (Z * Z)) :=
    (7, (300, 200)); (8, (65535, 65535)); (9, (65535, 1)); (10, (1, 65535)); (11, (40000, 50000));
    (12, (100, 60))].
 
+(* colour stream k mod m, k < n (harness op `fcm`): a period that is not a power of two shows index shifts by 65536 *)
+Fixpoint mod_colors_from (m k : Z) (n : nat) : list Z :=
+  match n with O => [] | S n' => k mod m :: mod_colors_from m (k + 1) n' end.
+Definition mod_colors (m n : Z) : list Z := mod_colors_from m 0 (Z.to_nat n).
+
 Fixpoint assocZ {A} (k : Z) (l : list (Z * A)) : option A :=
   match l with [] => None | (k', v) :: l' => if k =? k' then Some v else assocZ k l' end.
 
